@@ -27,6 +27,7 @@ use vharness::*;
 
 mod oracle_c01;
 mod oracle_c02;
+mod oracle_c04;
 mod oracle_c05;
 mod oracle_c06;
 mod oracle_c17;
@@ -1538,6 +1539,7 @@ fn main() {
                     };
                     // the properties, evaluated directly on the real editor (one module per property)
                     oracle_c02::check(&mut out, &step);
+                    oracle_c04::check(&mut out, &step);
                     oracle_c05::check(&mut out, &step);
                     oracle_c06::check(&mut out, &step);
                     oracle_c17::after_step(&mut out, &step, &s, c17_queries, &mut c17_stats);
